@@ -315,7 +315,7 @@ def run_code(code, env, target, backend):
 
 def build(case):
     spin = case.get("spin")
-    idx = {n: get_symbols(n, spin)[0] for n in NAMES}
+    idx = {n: get_symbols(n, spin)[0] for n in NAMES + ["l"]}
     fs = []
     for kind, names, exp in case["objs"]:
         t = tuple(idx[n] for n in names)
@@ -339,6 +339,11 @@ def gen_cases(tier, seed):
     yield {"objs": [["f", ["i", "j"], 1]], "pref": [1, 1], "target": "ij", "backend": "einsum"}
     yield {"objs": [["X", ["i", "i"], 1]], "pref": [1, 2], "target": "", "backend": "einsum"}
     yield {"objs": [["X", ["i", "j"], 1]], "pref": [1, 1], "target": "ji", "backend": "libtensor"}
+    # hyper-contractions of tensors that share their name and block
+    yield {"objs": [["X", ["i", "k"], 1], ["X", ["k", "l"], 1], ["A", ["l", "k"], 1], ["X", ["l", "j"], 1]],
+           "pref": [1, 1], "target": "ij", "backend": "einsum"}
+    yield {"objs": [["X", ["i", "k"], 1], ["X", ["k", "l"], 1], ["A", ["l", "k"], 1], ["X", ["l", "j"], 1],
+                    ["X", ["l", "c"], 1]], "pref": [3, 2], "target": "ijc", "backend": "einsum"}
     for _ in range(80 if tier == "quick" else 1500):
         objs = []
         for _o in range(rng.randint(1, 3)):
